@@ -178,6 +178,12 @@ class Workload:
                 k["delay"] = rng.choice([0, 100])
             self.noreply(k)
         elif m == "raw_version":
+            if rng.random() < 0.35:
+                # raw commands whose text merely ENDS in the word noreply (a key of that name in a get, which has no
+                # noreply form; a payload ending in it): they are ordinary commands and the server answers them
+                raw = rng.choice([(b"get noreply", b"END\r\n"), (b"get never-stored-key noreply", b"END\r\n"),
+                                  (b"set raw-only-key 0 0 9\r\nx noreply",)])
+                return {"t": "call", "m": "raw_command", "a": [E(x) for x in raw], "k": {}}
             return {"t": "call", "m": "raw_command", "a": [E(b"version")], "k": {}}
         elif m == "raw_miss":
             # a raw command read up to a multi-byte end token (the reply is just that token: the key is never stored)
